@@ -1104,7 +1104,8 @@ func boundaryConfigs() []gConfig {
 		}
 	}
 	// PREF64 lifetime = 3 x max_interval rounded up to 8 s: fractional and boundary intervals
-	for _, mx := range []string{"4s", "5s", "5500ms", "8s", "8100ms", "8.000000001s", "10.6s", "16s", "600s", "1799.5s", "1800s", "2666ms", "2667ms"} {
+	for _, mx := range []string{"4s", "5s", "5500ms", "8s", "8100ms", "8.000000001s", "10.6s", "16s", "600s", "1799.5s", "1800s", "2666ms", "2667ms",
+		"10666666667ns", "10666666666ns", "10666666668ns", "5333333334ns", "5333333333ns"} { // 3 x max = a multiple of 8 s + 1 ns, - 2 ns, + 4 ns; 16 s + 2 ns, 16 s - 1 ns
 		mx := mx
 		add(func(i *gIface) { i.maxInterval = mx; i.pref64 = []*string{nil} })
 	}
